@@ -559,7 +559,10 @@ def exec (sub : SubRun) (g : G) (f : Frame) (ins : Instr) : StepR :=
      | t :: rest =>
        if t != f.top then
          (match f.pop with
-          | .ok (v, f1) => pushV g { f1 with top := t, fblocks := rest } v
+          | .ok (v, f1) =>
+            -- the hole's value becomes text here (not when the template is joined)
+            if (valToString g.heap v).utf8ByteSize > maxStringLength then err g f1 "不能一次性创建过长的字符串"
+            else pushV g { f1 with top := t, fblocks := rest } (.str (valToString g.heap v))
           | r => bad g f r)
        else pushV g { f with top := t, fblocks := rest } (.str ""))
   | .stSet | .stX0 =>
